@@ -404,6 +404,13 @@ func runReaderPath(lim, slen int, wants []readObs, steps, calls *int) (fail int,
 		if r.broken != "" {
 			return -1, "", got, fmt.Errorf("%s", r.broken)
 		}
+		// The statement is silent on zero-length Reads before the limit: the
+		// code passes them down, but answering (0, nil) without calling r is
+		// equally within the property.  The scripted answers are then out of
+		// step, so the rest of this path is not judged.
+		if want.Buf == 0 && want.Called && !got.Called && got.Panic == "" && got.N == 0 && got.Err == "nil" {
+			return -1, "", got, nil
+		}
 		if what = diffRead(want, got, uint64(lim)); what != "" {
 			return i, what, got, nil
 		}
@@ -449,7 +456,7 @@ func diffRead(want, got readObs, lim uint64) string {
 	case got.Called != want.Called && got.Called:
 		return fmt.Sprintf("r was asked for %d more byte(s) although the specification predicts no call (limit used up)", got.Req)
 	case got.Called != want.Called:
-		return "r was not called although the limit is not used up"
+		return fmt.Sprintf("Read returned (%d, %s) without calling r although the limit is not used up", got.N, got.Err)
 	case got.Called && got.Req != want.Req:
 		return fmt.Sprintf("requested %d byte(s) from r, the specification allows exactly %d", got.Req, want.Req)
 	case got.N != want.N:
